@@ -430,6 +430,12 @@ func (s *Spec) realiseMap() any {
 			out[k] = s.E[i].Realise()
 		}
 		return out
+	case "namedkey":
+		out := make(map[namedKey]any, s.Cap)
+		for i, k := range s.Keys {
+			out[namedKey(k)] = s.E[i].Realise()
+		}
+		return out
 	case "mapslice":
 		out := make(yaml.MapSlice, 0, len(s.E))
 		for i, k := range s.Keys {
